@@ -99,6 +99,40 @@ def run(tier, seed, replay=None):
         if len(samples) < 3 and 5 <= len(objs) <= 12 and any(o.kind == "layout" for o in objs) \
                 and any(o.kind in ("action", "menu") for o in objs):
             samples.append(doccheck.sample_of(d, g["ui"]))
+    # ---- several sources in one invocation of the CLI (with and without --no-dynamic-binding): each form holds its own tree
+    import os
+    import subprocess
+    wd = common.workdir("c11cli")
+    okdocs = [d for d, r in zip(docs, res) if r and doccheck.accepted(r["generate"][0]) and not d.decorated]
+    n_multi = 0
+    for k in range(4 if tier == "quick" else 40):
+        if len(okdocs) < 4:
+            break
+        pd = os.path.join(wd, "p%d" % k)
+        os.makedirs(pd)
+        picks = rng.sample(okdocs, rng.randint(2, 4))
+        names = ["Form%s" % "ABCD"[i] for i in range(len(picks))]
+        for n, d in zip(names, picks):
+            open(os.path.join(pd, n + ".qml"), "w").write(d.source)
+        opts = ["--no-dynamic-binding"] if k % 2 else []
+        p = subprocess.run([common.CLI, "generate-ui", "--foreign-types", common.METATYPES, "--foreign-types", common.VF_TYPES] + opts
+                           + [n + ".qml" for n in names], cwd=pd, capture_output=True, env=dict(os.environ, NO_COLOR="1"), timeout=300)
+        if p.returncode != 0:
+            v.inconc("multi-source invocation refused: %s" % p.stderr.decode("utf-8", "replace")[-200:])
+            continue
+        for n, d in zip(names, picks):
+            ui = open(os.path.join(pd, n.lower() + ".ui"), "rb").read().decode("utf-8", "replace")
+            rp = {"qml": d.source, "ui": ui[:6000], "invocation": opts + [x + ".qml" for x in names], "file": n.lower() + ".ui"}
+            try:
+                root = uiparse.parse(ui)
+            except uiparse.UiSyntaxError as e:
+                v.violation("tree-multi-source", "%s written by a %d-source invocation is not a single well-formed form: %s" % (n.lower() + ".ui", len(names), e), rp)
+                break
+            mapping, alarms = doccheck.match_tree(d, root)
+            n_multi += 1
+            if alarms:
+                v.violation("tree-multi-source", "%s written by a %d-source invocation: %s" % (n.lower() + ".ui", len(names), alarms[0][1]), rp)
+                break
     for i in out.cpu_violations:
         v.inconc("cpu budget (C07's business) %s" % i)
     total = n_acc + n_rej
@@ -111,5 +145,5 @@ def run(tier, seed, replay=None):
              "tab widgets, main windows; tree isomorphism + addaction sequence; distinct = distinct (class, has-id, children) "
              "tree shape with >= 4 objects",
         samples=samples, accepted=n_acc, rejected=n_rej, rejected_reasons=rejected_msgs, objects_matched=n_obj,
-        objects_by_kind=kinds, annotated_documents_rejected=n_rej_decorated, annotated_documents_accepted=n_acc_decorated, addaction_entries_checked=n_addaction, floor=50 if tier == "quick" else 500,
+        objects_by_kind=kinds, forms_of_multi_source_invocations_matched=n_multi, annotated_documents_rejected=n_rej_decorated, annotated_documents_accepted=n_acc_decorated, addaction_entries_checked=n_addaction, floor=50 if tier == "quick" else 500,
     )
